@@ -14,7 +14,9 @@ symbols) and a random node: `c = node.copy()`; then on the REAL objects
 Correspondence: the whole object graph (node identities, symbol identities, tables, datatype
 dependencies) is exported before the copy, after the copy and after the edits and compared with
 `C15.copy` / `C15.run` of the Lean model (driver), which is in the mode `C15.deployed` (= the code
-with fixes/C15-deepcopy-datatype-refs.patch)."""
+with fixes/C15-deepcopy-datatype-refs.patch).  Interface objects of symbols are identities in that
+export too; a few edits change the access of an argument's interface: these are the known finding
+C15-shared-interface (the model shares the object exactly where the real copy methods do)."""
 import json
 import os
 
@@ -737,8 +739,13 @@ def run(chk):
         "edits of the original may rename/retype only symbols declared in the copied scopes, unless the copied "
         "subtree uses no outer-scope symbol (outer-scope symbols are shared with the copy by design)",
     ]
+    chk.cov["trusted_base"] = [
+        "Lean 4.33.0 kernel", "axioms propext/Classical.choice/Quot.sound only (audited)",
+        "harness/props/c15.py: export of the real object graph (which attributes of nodes, symbols and datatypes "
+        "hold symbols) and the edit interpreter; FortranWriter as the observer of 'written code'",
+        "C15.view as the abstraction of written code"]
     chk.lean()
-    n_cases = 4000 if chk.tier == "thorough" else 260
+    n_cases = 4000 if chk.tier == "thorough" else 200
     stats = {"node_class": {}, "side": {}, "edits": {}, "closed": 0, "frontend_broken": 0, "refused": {},
              "subtree_nodes_max": 0, "copy_failures": 0}
     shared = {}
